@@ -80,6 +80,14 @@ def read_only_ops(proj, rng, n):
         else:
             ops.append(("Scalar(1,%s).IsValid/CreateCopy(unit=%s)" % (unit, u2),
                         lambda db, unit=unit, u2=u2, cat=cat: P.value_obj(Scalar(1.0, unit, cat).CreateCopy(unit=u2))))
+    # a composing map that ObtainQuantity takes as it is (it validates nothing), then the validating factory asked about the same map
+    from barril.units import Quantity
+    for bad in (OrderedDict([("length", ["h", 2]), ("time", ["s", -1])]), OrderedDict([("time", ["m", 1]), ("mass", ["kg", 1])]),
+                OrderedDict([("length", ["m", 1]), ("depth", ["s", 1])])):
+        label = ".".join("%s%d[%s]" % (u, e, c) for c, (u, e) in bad.items())
+        ops.append(("ObtainQuantity(map %s)" % label, lambda db, bad=bad: P.quantity(ObtainQuantity(OrderedDict((c, list(v)) for c, v in bad.items())))))
+        ops.append(("Quantity.CreateDerived(map %s)" % label, lambda db, bad=bad: P.quantity(Quantity.CreateDerived(OrderedDict((c, list(v)) for c, v in bad.items())))))
+        ops.append(("CheckCategoryUnit(unregistered category) twice", lambda db: [P.outcome(db.CheckCategoryUnit, "verif no such category", "m")[1:], P.outcome(db.CheckCategoryUnit, "verif no such category", "m")[1:]]))
     # the whole-table queries (no quantity type / category argument), spread through the mix
     whole = [("len(GetUnits())", lambda db: len(db.GetUnits())), ("len(GetInfos())", lambda db: len(db.GetInfos())),
              ("GetUnitNames(first type)", lambda db: list(db.GetUnitNames(list(db.GetQuantityTypes())[0]))), ("GetQuantityTypes()", lambda db: list(db.GetQuantityTypes())),
